@@ -179,6 +179,70 @@ func main() {
 			e.Strs("filterInRangeStmts", stmts, "fracmanager.List.FilterInRange: statements in source order")
 		}
 
+		// ---- the range of an active fraction: Filter's min/max recomputation and UpdateStats
+		if f, err := r.Load("frac/meta_data_collector.go"); err != nil {
+			e.Missing("meta_data_collector.go", err)
+		} else if fd := f.Func("metaDataCollector", "Filter"); fd == nil {
+			e.Missing("filterMinMaxStmts", "Filter not found")
+		} else {
+			var stmts []string
+			ast.Inspect(fd.Body, func(n ast.Node) bool {
+				switch x := n.(type) {
+				case *ast.IfStmt:
+					if c := f.Render(x.Cond); strings.Contains(c, "MinMID") || strings.Contains(c, "MaxMID") {
+						stmts = append(stmts, "if "+c+" { "+renderBody(f, x.Body)+" }")
+					}
+				case *ast.SwitchStmt:
+					if t := f.Render(x); strings.Contains(t, "MinMID") || strings.Contains(t, "MaxMID") {
+						stmts = append(stmts, t)
+					}
+					return false
+				}
+				return true
+			})
+			e.Strs("filterMinMaxStmts", stmts, "metaDataCollector.Filter: how MinMID / MaxMID are recomputed per appended id")
+		}
+		if f, err := r.Load("frac/active.go"); err != nil {
+			e.Missing("active.go", err)
+		} else if fd := f.Func("Active", "UpdateStats"); fd == nil {
+			e.Missing("updateStatsStmts", "UpdateStats not found")
+		} else {
+			var stmts []string
+			ast.Inspect(fd.Body, func(n ast.Node) bool {
+				switch x := n.(type) {
+				case *ast.IfStmt:
+					stmts = append(stmts, "if "+f.Render(x.Cond)+" { "+renderBody(f, x.Body)+" }")
+					return false
+				case *ast.SwitchStmt:
+					stmts = append(stmts, f.Render(x))
+					return false
+				}
+				return true
+			})
+			e.Strs("updateStatsStmts", stmts, "Active.UpdateStats: how From / To are widened")
+		}
+		// ---- the pooled fields filter keeps no state between fetches
+		if f, err := r.Load("storeapi/grpc_fetch.go"); err != nil {
+			e.Missing("grpc_fetch.go", err)
+		} else {
+			for _, fn := range []struct{ name, lean string }{{"acquireDocFieldsFilter", "acquireFilterStmts"}, {"releaseDocFieldsFilter", "releaseFilterStmts"}} {
+				fd := f.Func("", fn.name)
+				if fd == nil {
+					e.Missing(fn.lean, fn.name+" not found")
+					continue
+				}
+				var stmts []string
+				for _, st := range fd.Body.List {
+					if is, ok := st.(*ast.IfStmt); ok {
+						stmts = append(stmts, "if "+f.Render(is.Cond)+" { "+renderBody(f, is.Body)+" }")
+					} else {
+						stmts = append(stmts, f.Render(st))
+					}
+				}
+				e.Strs(fn.lean, stmts, "storeapi."+fn.name+": statements")
+			}
+		}
+
 		// ---- fracFetch recovers panics into an error (one fraction's panic fails the whole batch)
 		if f, err := r.Load("fracmanager/fetcher.go"); err != nil {
 			e.Missing("fetcher.go", err)
@@ -250,7 +314,7 @@ func main() {
 				e.Strs("fetchDocsCalls", calls, "Fetcher.FetchDocs: reversPos map, grouping, per-fraction fetch, result slice - call order")
 			}
 		}
-	}, "storeapi/docs_stream.go", "frac/sealed_index.go", "fracmanager/fetcher.go", "fracmanager/list.go", "seq/doc_pos.go", "conf/conf.go", "consts/consts.go")
+	}, "storeapi/docs_stream.go", "frac/sealed_index.go", "fracmanager/fetcher.go", "fracmanager/list.go", "frac/meta_data_collector.go", "frac/active.go", "storeapi/grpc_fetch.go", "seq/doc_pos.go", "conf/conf.go", "consts/consts.go")
 }
 
 func renderBody(f *lib.File, b *ast.BlockStmt) string {
